@@ -365,3 +365,38 @@ reg(
      "certainly overwritten before the read was invoked (values are not unique, so this is the necessary condition of linearizability)"],
     {"run": _c19.run, "replay": _c19.replay, "replay_case": None},
 )
+
+
+from . import c14 as _c14  # noqa: E402
+
+reg(
+    "C14",
+    "SVG rendering is well-formed, text-preserving and style-faithful",
+    "exploration",
+    "cases = (text, terminal configuration): SGR-grammar documents (generator of C07 plus XML-special strings, ']]>', wide / zero-width "
+    "characters, CRLF) x {VGA, Win10} x 5 default colour pairs x background on/off rendered by Term::render_svg; every output is parsed "
+    "by expat, the style sheet is read, and per line the text of the foreground spans, what each span's classes denote (read from the "
+    "class declarations, not the names), the background layer, the default colours, line positions and canvas height are compared with "
+    "the expectation computed by RefVt + RefSgr + the palette model; seeded, distinct by hash of input+configuration; non-trivial = the "
+    "input contains an escape sequence",
+    [A_REFVT, A_REFSGR, A_UL, A_SGR_FORMS,
+     "visible text contains no FF, U+FFFE, U+FFFF, DEL or C0 other than TAB/LF and CR only as part of CRLF inside one run - DESIGN 8.7",
+     "a class 'denotes' what its CSS declarations say (fill = foreground, stroke+fill = background, text-decoration-color = underline colour, font-weight bold, ...)",
+     "canvas height is only required to reach the last line's position; exact paddings are not part of the statement"],
+    {"run": _c14.run, "replay": _c14.replay, "replay_case": None},
+)
+
+reg(
+    "C15",
+    "roff rendering preserves text, colours and font per segment",
+    "exploration",
+    "cases = styled texts made of segments each introduced by one self-contained SGR sequence (reset + subset of effects + 16-colour "
+    "fg/bg codes in random order) over a text alphabet with leading '.', apostrophes, backslashes, hyphens, newlines followed by '.'/\"'\", "
+    "literal '\\\\fB' / '\\\\&'; the document (both to_roff() and render()) is read back by an independent roff reader (request lines, text "
+    "lines, un-escaping) and compared character by character with the RefVt+RefSgr interpretation: text, colour request names, font; "
+    "exhaustive over 17x17 colour pairs x 192 effect subsets for one segment (distinct by construction), seeded multi-segment texts "
+    "(distinct by hash); non-trivial = every input",
+    [A_REFVT, A_REFSGR, "bold together with faint is not generated (the segmenter keeps one intensity) - DESIGN 8.9",
+     "styles accumulated over several sequences and 256-colour / RGB codes are outside the explored domain, as the property's quantifier says"],
+    simple("c15"),
+)
